@@ -67,6 +67,10 @@ func monitor(prop string, h *History, res *common.Result) {
 		restartMonitor(prop, h, res)
 	case "C12":
 		paramMonitor(prop, h, res)
+	case "C13":
+		gcIdleMonitor(prop, h, res)
+	case "C06":
+		sessionEndSeqMonitor(prop, h, res)
 	}
 	noclearDisc := false
 	for i := range h.Steps {
@@ -151,6 +155,45 @@ func monitor(prop string, h *History, res *common.Result) {
 				if a, b := nonEmpty(v.Listing), nonEmpty(v.File); a != b && !noclearDisc {
 					viol(res, prop, "seq:crash:file-vs-acknowledged", fmt.Sprintf("after %q a kill would leave a file recording {%s} while the acknowledged live holds are {%s}", s.Op.Line(), b, a), h, i, nil)
 					return
+				}
+			}
+		case "C18":
+			// an admin unlock that reports success has the whole effect of the holder's own Unlock: the hold is
+			// gone from the lock table, the listing, the state file and the lease timers
+			if s.Op.Kind == "ipcunlock" && s.Resp.Ok {
+				k := s.Op.Key
+				if k == "" {
+					k = s.Op.Chosen
+				}
+				if k != "" {
+					kt, nt := impl.Tok(k), impl.Tok(s.Op.Name)
+					left := ""
+					if l, ok := v.Table[s.Op.Name]; ok && contains(l.Keys, kt) {
+						left = "lock table"
+					}
+					for _, e := range holdsOfListing(v) {
+						if strings.HasPrefix(e, nt+"/"+kt+"/") {
+							left = "listing"
+						}
+					}
+					if h.Cfg.File && v.FileErr == "" {
+						for _, hs := range v.File {
+							for _, e := range hs {
+								if strings.HasPrefix(e, nt+"/"+kt+"/") {
+									left = "state file"
+								}
+							}
+						}
+					}
+					for _, tk := range strings.Split(v.TM, ";") {
+						if tk != "" && strings.HasSuffix(tk, strings.TrimPrefix(kt, "=")) && strings.Contains(tk, strings.TrimPrefix(nt, "=")) {
+							left = "lease timers"
+						}
+					}
+					if left != "" {
+						viol(res, prop, "seq:ipc:left-behind:"+strings.ReplaceAll(left, " ", "-"), fmt.Sprintf("%q reported success but hold %s/%s is still in the %s", s.Op.Line(), nt, kt, left), h, i, nil)
+						return
+					}
 				}
 			}
 		case "C08":
@@ -537,4 +580,136 @@ func sizesOf(v *impl.View) map[string]int32 {
 		}
 	}
 	return m
+}
+
+// ---------------------------------------------------------------- C13: collected only after the minimum idle time
+
+// gcIdleMonitor: a lock object may disappear from the table only when no client request has touched
+// it for more than the minimum idle time. Counted as touching (a subset of what the code counts, so
+// the rule can only be too lenient): a Lock/TryLock on the name that got past parameter validation
+// and was not refused for its size, and an Unlock / admin unlock naming a lock that exists.
+func gcIdleMonitor(prop string, h *History, res *common.Result) {
+	last := map[string]int64{}
+	for i := range h.Steps {
+		s := &h.Steps[i]
+		if h.TieAt >= 0 && i >= h.TieAt || strings.HasPrefix(s.Impl, "panic ") || strings.HasPrefix(s.Impl, "start-failed ") {
+			return
+		}
+		if s.Op.Kind == "restart" {
+			last = map[string]int64{}
+			continue
+		}
+		if s.Before != nil {
+			for name := range s.Before.Table {
+				if _, still := s.View.Table[name]; still {
+					continue
+				}
+				minIdle := int64(h.Cfg.GcIdle)
+				if s.Op.Kind == "gc" { // an explicit pass carries its own minimum idle time
+					minIdle = s.Op.D
+				}
+				if t, ok := last[name]; ok && s.Now-t <= minIdle {
+					viol(res, prop, "seq:gc:collected-before-min-idle", fmt.Sprintf("lock %q was collected during %q at or before %d ns although a request touched it at %d ns: idle for at most %d ns, minimum idle time %d ns", name, s.Op.Line(), s.Now, t, s.Now-t, minIdle), h, i, nil)
+					return
+				}
+			}
+		}
+		switch s.Op.Kind {
+		case "trylock", "lock":
+			switch s.Resp.Err {
+			case "-", "LockWaitTimeout", "Canceled":
+				if s.Op.Name != "" {
+					last[s.Op.Name] = s.Now
+				}
+			}
+		case "unlock", "ipcunlock":
+			if s.Before != nil {
+				if _, ok := s.Before.Table[s.Op.Name]; ok {
+					last[s.Op.Name] = s.Now
+				}
+			}
+		}
+	}
+}
+
+// ---------------------------------------------------------------- C06: session end, sequentially
+
+// sessionEndSeqMonitor: a session end with nothing in flight. With clearing, exactly the holds listed
+// for that session leave the lock table and lose their lease timers, every other hold and timer stays.
+// With no-clear-on-disconnect every hold and every lease timer stays as it was.
+func sessionEndSeqMonitor(prop string, h *History, res *common.Result) {
+	for i := range h.Steps {
+		s := &h.Steps[i]
+		if h.TieAt >= 0 && i >= h.TieAt || strings.HasPrefix(s.Impl, "panic ") || strings.HasPrefix(s.Impl, "start-failed ") {
+			return
+		}
+		if s.Op.Kind != "disconnect" || s.Before == nil {
+			continue
+		}
+		b, v := s.Before, &s.View
+		mine := map[string]bool{} // "name/key" of the ending session's holds
+		for _, e := range b.Listing[s.Op.Sid] {
+			f := strings.Split(e, "/")
+			mine[f[0]+"/"+f[1]] = true
+		}
+		tableSet := func(w *impl.View) map[string]bool {
+			m := map[string]bool{}
+			for n, l := range w.Table {
+				for _, k := range l.Keys {
+					m[impl.Tok(n)+"/"+k] = true
+				}
+			}
+			return m
+		}
+		before, after := tableSet(b), tableSet(v)
+		if h.Cfg.NoClear {
+			for e := range before {
+				if !after[e] {
+					viol(res, prop, "seq:session-end:noclear:hold-released", fmt.Sprintf("with no-clear-on-disconnect %q released hold %s", s.Op.Line(), e), h, i, nil)
+					return
+				}
+			}
+			if b.TM != v.TM {
+				viol(res, prop, "seq:session-end:noclear:lease-changed", fmt.Sprintf("with no-clear-on-disconnect %q changed the lease timers: %q -> %q (the holds must stay until unlocked by key or lease expiry)", s.Op.Line(), b.TM, v.TM), h, i, nil)
+				return
+			}
+			continue
+		}
+		// a unit freed by the session end may be handed to a blocked call of another session at once:
+		// compare holds that existed before
+		for e := range before {
+			switch {
+			case mine[e] && after[e]:
+				viol(res, prop, "seq:session-end:hold-left", fmt.Sprintf("after %q hold %s of the ended session still occupies the lock", s.Op.Line(), e), h, i, nil)
+				return
+			case !mine[e] && !after[e]:
+				viol(res, prop, "seq:session-end:other-hold-released", fmt.Sprintf("%q released hold %s, which the ended session did not own", s.Op.Line(), e), h, i, nil)
+				return
+			}
+		}
+		for _, tk := range strings.Split(b.TM, ";") {
+			if tk == "" {
+				continue
+			}
+			isMine := false
+			for e := range mine {
+				f := strings.Split(e, "/")
+				if strings.HasSuffix(tk, strings.TrimPrefix(f[1], "=")) && strings.Contains(tk, strings.TrimPrefix(f[0], "=")) {
+					isMine = true
+				}
+			}
+			present := false
+			for _, t2 := range strings.Split(v.TM, ";") {
+				present = present || t2 == tk
+			}
+			if isMine && present {
+				viol(res, prop, "seq:session-end:lease-left", fmt.Sprintf("after %q the lease timer %s of a hold of the ended session is still armed", s.Op.Line(), tk), h, i, nil)
+				return
+			}
+			if !isMine && !present {
+				viol(res, prop, "seq:session-end:other-lease-removed", fmt.Sprintf("%q removed the lease timer %s of a hold the ended session did not own", s.Op.Line(), tk), h, i, nil)
+				return
+			}
+		}
+	}
 }
